@@ -186,17 +186,23 @@ func (s *Session) Broadcast(sender *Participant, protoMsg hwebsocket.ProtoMsg) {
 }
 
 func (s *Session) BroadcastTo(sender *Participant, protoMsg hwebsocket.ProtoMsg, participantIds ...uint32) {
-	participants := s.GetParticipantsByIDs(participantIds...)
-	isParticipantHandled := make(map[uint32]struct{}, len(participantIds))
-
 	msg, err := hwebsocket.MsgFromProto(protoMsg)
 	if err != nil {
 		logs.WithTag("message", protoMsg).Debug(err)
 		return
 	}
 
-	for _, p := range participants {
-		if p == sender {
+	// As in Broadcast, the participants are locked while the message is handed
+	// over: a participant that leaves the session gets it before it is out of
+	// the session, or not at all.
+	s.participantMutex.RLock()
+	defer s.participantMutex.RUnlock()
+
+	isParticipantHandled := make(map[uint32]struct{}, len(participantIds))
+
+	for _, id := range participantIds {
+		p, ok := s.participants[id]
+		if !ok || p == sender {
 			continue
 		}
 
